@@ -15,6 +15,11 @@ type Violation struct {
 	// Payload, if set, is an engine-specific self-contained reproducer (C08:
 	// decoder id + input bytes); replay then uses it instead of a trace.
 	Payload []byte `json:"payload,omitempty"`
+	// Statistical marks a violation whose recurrence depends on a random
+	// source outside the simulator (the real runtime's map order inside the
+	// un-instrumented reference process): it is confirmed and replayed by
+	// re-executing the run from its seed several times.
+	Statistical bool `json:"statistical,omitempty"`
 }
 
 // RunResult is what one simulated run reports.
